@@ -115,6 +115,8 @@ def run(ck, prop, stream, families_note, variants=None, judge=None, theorems=Non
     tie_bad61 = []
     tie_bad62 = []
     tie_bad63 = []
+    tie_bad70 = []
+    maporder70 = [0, 0]     # runs of the MVP-7.0 model, of which ended `maporder` (no verdict)
     maporder63 = [0, 0]     # runs of the MVP-6.3 model, of which ended `maporder` (no verdict)
     r60_bad, r60_n = [], [0]
     excused = Counter()
@@ -142,9 +144,9 @@ def run(ck, prop, stream, families_note, variants=None, judge=None, theorems=Non
                     tie_bad.append(f"case {c['id']} {var}: Go {rr[0]['status']} cycles={rr[0]['cycles']} vs model {ref[key]}")
         # tie of the Lean model of the superscalar MVP-6.0 (Model.Mvp60, eu = wu = K): status, cycles, ticks and the final
         # registers and memory of the GO RUN (not of the reference: the model must reproduce the wrong results too)
-        # (same loop for Model.Mvp61 / mvp6-1: fields `m61pK`, and Model.Mvp62 / mvp6-2: fields `m62pK`, Model.Mvp63 / mvp6-3: fields `m63pK`;
+        # (same loop for Model.Mvp61 / mvp6-1: fields `m61pK`, and Model.Mvp62 / mvp6-2: fields `m62pK`, Model.Mvp63 / mvp6-3: fields `m63pK`, Model.Mvp70 / mvp7-0: fields `m70pK`;
         #  the MVP-6.3 model reports `maporder` where the Go result depends on map iteration order: such a run gets no verdict)
-        for prefix, var, K in [(pv[0], pv[1], K) for pv in (("m60p", "mvp6-0"), ("m61p", "mvp6-1"), ("m62p", "mvp6-2"), ("m63p", "mvp6-3")) for K in (1, 2, 3, 4)]:
+        for prefix, var, K in [(pv[0], pv[1], K) for pv in (("m60p", "mvp6-0"), ("m61p", "mvp6-1"), ("m62p", "mvp6-2"), ("m63p", "mvp6-3"), ("m70p", "mvp7-0")) for K in (1, 2, 3, 4)]:
             key = f"{prefix}{K}"
             rr = [x for x in res if x["variant"] == var and x["par"] == K]
             if mods and key in ref and rr:
@@ -153,6 +155,11 @@ def run(ck, prop, stream, families_note, variants=None, judge=None, theorems=Non
                     maporder63[0] += 1
                     if h == "maporder":
                         maporder63[1] += 1
+                        continue
+                if prefix == "m70p":
+                    maporder70[0] += 1
+                    if h == "maporder":
+                        maporder70[1] += 1
                         continue
                 mstat = {"ret": "ok", "offend": "ok", "err": "err", "panic": "panic", "fuel": "hang"}[h]
                 budget = meta.get("budget", 0)
@@ -164,7 +171,7 @@ def run(ck, prop, stream, families_note, variants=None, judge=None, theorems=Non
                 gdig = m60_digest(g.get("regs", ""), g.get("mem", ""))
                 if g["status"] != mstat or (mstat == "ok" and int(cyc) != g["cycles"]) or \
                         (mstat in ("ok", "err") and (int(mticks) != g["ticks"] or dig != gdig)):
-                    {"m60p": tie_bad60, "m61p": tie_bad61, "m62p": tie_bad62, "m63p": tie_bad63}[prefix].append(f"case {c['id']} {var}/{K}: Go {g['status']} cycles={g['cycles']} ticks={g['ticks']} state={gdig} vs model {ref[key]}")
+                    {"m60p": tie_bad60, "m61p": tie_bad61, "m62p": tie_bad62, "m63p": tie_bad63, "m70p": tie_bad70}[prefix].append(f"case {c['id']} {var}/{K}: Go {g['status']} cycles={g['cycles']} ticks={g['ticks']} state={gdig} vs model {ref[key]}")
         # R60: a member of the class Model.Mvp60.RegOnly (field r60, first digit) whose reference run is well-formed must be run
         # CORRECTLY by the MVP-6.0 model at every evaluated parallelism (the statement Props.C01.Full_mvp60_regonly_correct)
         if mods and ref.get("r60", "00")[:1] == "1" and not ref["stop"].startswith("notwf"):
@@ -221,6 +228,10 @@ def run(ck, prop, stream, families_note, variants=None, judge=None, theorems=Non
         ck.broken.append(f"correspondence Go MVP-6.2 vs the Lean machine model Model.Mvp62 differs on {len(tie_bad62)} runs; first: {tie_bad62[0]}")
     if tie_bad63:
         ck.broken.append(f"correspondence Go MVP-6.3 vs the Lean machine model Model.Mvp63 differs on {len(tie_bad63)} runs; first: {tie_bad63[0]}")
+    if tie_bad70:
+        ck.broken.append(f"correspondence Go MVP-7.0 vs the Lean machine model Model.Mvp70 differs on {len(tie_bad70)} runs; first: {tie_bad70[0]}")
+    if maporder70[1]:
+        ck.notes.append(f"M70: {maporder70[1]} of {maporder70[0]} runs of the MVP-7.0 model end as `maporder` (the Go result depends on map iteration order): no verdict")
     if maporder63[1]:
         ck.notes.append(f"M63: {maporder63[1]} of {maporder63[0]} runs of the MVP-6.3 model end as `maporder` (the Go result depends on map iteration order): no verdict")
     if r60_bad:
